@@ -389,6 +389,21 @@ func (r *c15UintNRig) checkSmall(n uint64) (nt int64, f *c15Failure) {
 	t.vals = [16]uint64{}
 	counts := r.counts[:n]
 	pow2 := sh.mask == sh.max
+	if sh.size == 0 {
+		// n == 1 needs no source bytes; whether an empty read is issued is not constrained
+		for _, p := range []*genericPRG{r.poisoned, r.clean} {
+			t.reset()
+			got := p.UintN(n)
+			r.evals++
+			if got != 0 {
+				return 0, c15Violation([]c15Draw{c15U("seed", r.seed), c15U("n", n)}, "UintN(1) returned %d", got)
+			}
+			if t.long > 0 {
+				return 0, c15ModelNA("UintN(1) requested source bytes")
+			}
+		}
+		return 0, nil
+	}
 
 	passes := 1
 	if sh.size <= 1 {
@@ -440,7 +455,7 @@ func (r *c15UintNRig) checkSmall(n uint64) (nt int64, f *c15Failure) {
 	// second level: one rejected first read, every second read; the decision
 	// must be the same function of the read as at the first level.
 	first := total - 1 // all ones: masked value is the mask > n-1
-	if n&1 == 0 {
+	if bits.OnesCount64(n)&1 == 0 {
 		first = n // smallest rejected value
 	}
 	for i := range counts {
@@ -478,6 +493,10 @@ func (r *c15UintNRig) checkSmall(n uint64) (nt int64, f *c15Failure) {
 // checkBig runs UintN(n) on seed-derived tapes and compares with the model.
 func (r *c15UintNRig) checkBig(n uint64, tapes int, seen map[uint64]bool) (nt int64, rejections int64, f *c15Failure) {
 	sh := c15ShapeOf(n)
+	if sh.size == 0 {
+		_, f = r.checkSmall(n)
+		return 0, 0, f
+	}
 	t := &r.tape
 	t.size = sh.size
 	pow2 := sh.mask == sh.max
@@ -606,7 +625,7 @@ func TestVerifC15_UintN(t *testing.T) {
 			rig = c15NewRig(s)
 		}
 		cur = n
-		c15Report(t, st, env, rig.prime())
+		primeFailure := rig.prime() // reported last: the record's own n describes the defect better
 		if n <= 1<<16 {
 			_, f := rig.checkSmall(n)
 			c15Report(t, st, env, f)
@@ -628,6 +647,7 @@ func TestVerifC15_UintN(t *testing.T) {
 				c15Report(t, st, env, rig.judge(n, rig.tape.vals[:len(rd)], got, "replayed"))
 			}
 		}
+		c15Report(t, st, env, primeFailure)
 		t.Logf("replay of n=%d passes", n)
 		return
 	}
@@ -635,6 +655,13 @@ func TestVerifC15_UintN(t *testing.T) {
 	// (a failure of the priming call is reported after the enumeration, which
 	// describes the same defect with a small n)
 	primeFailure := rig.prime()
+	var ntCases int64
+	report := func(f *c15Failure) {
+		if f != nil {
+			st.Evaluations, st.ExtraDistinct = rig.evals, ntCases
+			c15Report(t, st, env, f)
+		}
+	}
 
 	limit := env.n
 	if limit > 1<<16 {
@@ -642,7 +669,7 @@ func TestVerifC15_UintN(t *testing.T) {
 		limit = 1 << 16
 	}
 	mine := func(n uint64) bool { return n%uint64(env.shards) == uint64(env.shard) }
-	var nSmall, ntCases int64
+	var nSmall int64
 	for n := uint64(1); n <= uint64(limit); n++ {
 		if !mine(n) {
 			continue
@@ -650,7 +677,7 @@ func TestVerifC15_UintN(t *testing.T) {
 		cur = n
 		before := rig.evals
 		nt, f := rig.checkSmall(n)
-		c15Report(t, st, env, f)
+		report(f)
 		nSmall++
 		ntCases += nt
 		if nt > 0 {
@@ -673,9 +700,7 @@ func TestVerifC15_UintN(t *testing.T) {
 		"UintN(n) for every n in [1,%d] with n mod %d = %d: every value of the first source read (256^size tapes), and every value of the second read after one rejected first read",
 		limit, env.shards, env.shard))
 
-	if primeFailure != nil && !primeFailure.modelNA {
-		c15Report(t, st, env, primeFailure)
-	}
+	report(primeFailure)
 
 	// beyond the budget: the boundary values up to 2^16 and seed-derived n, same complete enumeration
 	var extra []uint64
@@ -701,7 +726,7 @@ func TestVerifC15_UintN(t *testing.T) {
 			cur = n
 			before := rig.evals
 			nt, f := rig.checkSmall(n)
-			c15Report(t, st, env, f)
+			report(f)
 			ntCases += nt
 			if nt > 0 {
 				st.NonTrivial += rig.evals - before
@@ -724,7 +749,7 @@ func TestVerifC15_UintN(t *testing.T) {
 		cur = n
 		before := rig.evals
 		nt, rej, f := rig.checkBig(n, tapes, seen)
-		c15Report(t, st, env, f)
+		report(f)
 		nBig++
 		ntCases += nt
 		rejections += rej
@@ -1284,13 +1309,19 @@ func TestVerifC15_Perm(t *testing.T) {
 	}
 	ranges := map[string]string{}
 	var distinct int64
+	report := func(f *c15Failure) {
+		if f != nil {
+			st.Evaluations, st.ExtraDistinct = c.evals, distinct
+			c15Report(t, st, env, f)
+		}
+	}
 	for i, cb := range combos {
 		if i%env.shards != env.shard {
 			continue
 		}
 		before := c.evals
 		tapes, info, f := c.checkCombo(cb.h, cb.n, cb.m)
-		c15Report(t, st, env, f)
+		report(f)
 		st.Classes[c15HelperNames[cb.h]]++
 		if cb.m < cb.n || cb.n >= 3 {
 			st.NonTrivial += c.evals - before
